@@ -145,6 +145,15 @@ func upperGuard(b *ssa.BasicBlock, idx, x ssa.Value, same func(a, b ssa.Value) b
 	return "", false
 }
 
+// forwardBound: idx stays below the length of x — tested at the top of the loop (upperGuard) or at its bottom
+// (`for i := range n`, rotatedCounterBound).
+func forwardBound(b *ssa.BasicBlock, idx, x ssa.Value, same func(a, b ssa.Value) bool) (string, bool) {
+	if g, ok := upperGuard(b, idx, x, same); ok {
+		return g, true
+	}
+	return rotatedCounterBound(idx, x)
+}
+
 // rotatedCounterBound: idx is the counter of a bottom-tested loop (`for i := range n`): a phi of 0 — entered only
 // under `0 < n` — and idx+1 — taken only under `idx+1 < n` — with n the length of x.
 func rotatedCounterBound(idx, x ssa.Value) (string, bool) {
